@@ -17,9 +17,10 @@ import (
 // schedule exploration under the cooperative scheduler + free-running race pass.
 
 type c14Thread struct {
-	Kind   string `json:"kind"`   // transform | newschema
-	Schema int    `json:"schema"` // index into the scenario's schema list
-	Input  string `json:"input,omitempty"`
+	Kind   string            `json:"kind"`   // transform | newschema
+	Schema int               `json:"schema"` // index into the scenario's schema list
+	Input  string            `json:"input,omitempty"`
+	Ext    map[string]string `json:"externals,omitempty"` // this thread's external properties
 }
 
 type c14Scenario struct {
@@ -104,6 +105,11 @@ func c14Scenarios(quick bool) []c14Scenario {
 		c14Scenario{Name: "fixed-length-header-footer-shared-schema", Schemas: []string{flHF}, Threads: []c14Thread{
 			{Kind: "transform", Schema: 0, Input: "H11\nab\nF\n"}, {Kind: "transform", Schema: 0, Input: "H22\ncd\nF\nH33\nef\nF\n"}}},
 	)
+	// one Schema, different external properties per Transform (typed externals, also through a template)
+	extSchema := `{` + c10Hdr("csv") + `,"file_declaration":{"delimiter":",","data_row_index":1,"columns":[{"name":"A"}]},"transform_declarations":{"FINAL_OUTPUT":{"object":{"a":{"xpath":"A"},"n":{"external":"n","type":"int"},"b":{"external":"b","type":"boolean"},"s":{"external":"s"},"t":{"template":"T"}}},"T":{"external":"n","type":"float"}}}`
+	sc = append(sc, c14Scenario{Name: "typed-externals-shared-schema", Schemas: []string{extSchema}, Threads: []c14Thread{
+		{Kind: "transform", Schema: 0, Input: "x\ny\n", Ext: map[string]string{"n": "7", "b": "true", "s": "one"}},
+		{Kind: "transform", Schema: 0, Input: "z\n", Ext: map[string]string{"n": "8", "b": "false", "s": "two"}}}})
 	// scheduling points inside xpath evaluation: record filters and field queries on a shared schema
 	navCsv := `{` + c10Hdr("csv") + `,"file_declaration":{"delimiter":",","data_row_index":1,"columns":[{"name":"N"},{"name":"J"}]},"transform_declarations":{"FINAL_OUTPUT":{"xpath":".[N!='0' and J!='z']","object":{"n":{"xpath":"N","type":"int"},"j":{"xpath":"J[.!='q']"}}}}}`
 	navEdi := `{` + c10Hdr("edi") + `,"file_declaration":{"segment_delimiter":"~","element_delimiter":"*","segment_declarations":[{"name":"A","is_target":true,"min":0,"max":-1,"elements":[{"name":"N","index":1},{"name":"J","index":2}]}]},"transform_declarations":{"FINAL_OUTPUT":{"xpath":".[N!='0' and J!='z']","object":{"n":{"xpath":"N","type":"int"},"j":{"xpath":"J"}}}}}`
@@ -136,7 +142,7 @@ func c14Solo(schema omniparser.Schema, th c14Thread, schemaText string) string {
 		_, err, ps := hx.NewSchema("s", schemaText)
 		return fmt.Sprintf("newschema err=%v %s", err, ps)
 	}
-	r := hx.Run(schema, strings.NewReader(th.Input), hx.Opts{MaxReads: 100})
+	r := hx.Run(schema, strings.NewReader(th.Input), hx.Opts{MaxReads: 100, Externals: th.Ext})
 	return hx.Transcript(r.Steps) + r.NewTransformErr + r.PanicSite
 }
 
